@@ -101,11 +101,26 @@ def enum_algebra(tier):
             yield {"n": n, "y": y}
 
 
+def check_closed_forms(n, a):
+    """counts of an unfiltered pyramid of depth n restricted to a sub-pyramid with apex level a: exact integers at any depth"""
+    py = _P()
+    sub = n - a
+    if py.depth2tiles(n) != (4 ** (n + 1) - 1) // 3 or py.tiles_at_depth(n) != 4**n:
+        raise Violation("closed-form", f"depth2tiles({n}) = {py.depth2tiles(n)}, tiles_at_depth({n}) = {py.tiles_at_depth(n)}; exact values {(4 ** (n + 1) - 1) // 3}, {4**n}")
+    p = py.Pyramid.new_generic(n)
+    if a > 0:
+        p = p.subpyramid(py.Pos(a, 2**a - 1, 2 ** (a - 1)))
+    nl, nv, no = p.count_leaf_tiles(), p.count_live_tiles(), p.count_operations()
+    if (nl, nv, no) != (4**sub, (4 ** (sub + 1) - 1) // 3, (4**sub - 1) // 3) or no + nl != nv:
+        raise Violation("closed-form", f"generic pyramid of depth {n}, apex level {a}: leaves/live/operations = {(nl, nv, no)}, closed forms {(4**sub, (4 ** (sub + 1) - 1) // 3, (4**sub - 1) // 3)}")
+
+
 def exec_algebra_deep(case):
     py = _P()
     p = tuple(case["pos"])
     with toasty_call("algebra"):
         check_algebra_pos(p)
+        check_closed_forms(p[0], case["other"][0] % (p[0] + 1))
         q = tuple(case["other"])
         d, s = (p, q) if p[0] >= q[0] else (q, p)
         expect = rp.ancestor_at(d, s[0]) == s
@@ -344,7 +359,8 @@ def exec_pyramid(case):
     try:
         with toasty_call("pyramid", "pyramid use" + (f" after a refused subpyramid({_PRE_REJECT})" if _PRE_REJECT else "")):
             ref, vis, walked = compare_pyramid(kind, depth, fspec, apex, cs)
-            if apex is not None:
+            if apex is not None and not (case.get("deep") and kind != "filtered"):
+                # (the full pyramid of an unfiltered depth-10+ case has millions of tiles: only the sub-pyramid is judged)
                 sub_vs_full(kind, depth, fspec, apex, cs, vis, walked)
     except Violation as v:
         if _PRE_REJECT:
@@ -360,6 +376,10 @@ def exec_pyramid(case):
 
 @st.composite
 def strat_pyramid(draw, tier):
+    if draw(st.integers(0, 7)) == 0:
+        from .. import scen
+
+        return draw(scen.deep_sparse_pyramid())
     maxd = 5 if tier == "quick" else 6
     kind = draw(st.sampled_from(["generic", "toast", "filtered", "filtered", "filtered"]))
     depth = draw(st.integers(0, maxd if kind != "toast" else min(maxd, 5)))
